@@ -7,25 +7,35 @@ import tr_flags
 from rustexpr import Untranslatable
 
 
-def translate_flags(run):
-    try:
-        txt = tr_flags.generate(vlib.REPO)
-    except Untranslatable as e:
-        return False, "source outside the modelled alternatives: %s" % e
-    path = os.path.join(vlib.COQ, "Gen", "Flags.v")
-    old = open(path).read() if os.path.exists(path) else None
-    if old != txt:
-        open(path, "w").write(txt)
-    return True, ""
+def _translate(name):
+    def tr(run):
+        try:
+            txt = tr_flags.GENERATORS[name](vlib.REPO)
+        except Untranslatable as e:
+            return False, "source outside the modelled alternatives: %s" % e
+        path = os.path.join(vlib.COQ, "Gen", name + ".v")
+        old = open(path).read() if os.path.exists(path) else None
+        if old != txt:
+            open(path, "w").write(txt)
+        return True, ""
+    return tr
+
+
+translate_flags_smh = _translate("FlagsSmh")
+translate_flags_dens = _translate("FlagsDens")
+translate_flags_ord = _translate("FlagsOrd")
+
+
+def _flag(fname, name):
+    txt = open(os.path.join(vlib.COQ, "Gen", fname + ".v")).read()
+    m = re.search(r"Definition %s : bool := (true|false)\." % name, txt)
+    return 1 if (m and m.group(1) == "true") else 0
 
 
 def flags():
-    txt = open(os.path.join(vlib.COQ, "Gen", "Flags.v")).read()
-    f = {}
-    for name in ("smh_hist_by_floor", "dens_tie_on_hash", "dens_report_empty"):
-        m = re.search(r"Definition %s : bool := (true|false)\." % name, txt)
-        f[name] = 1 if (m and m.group(1) == "true") else 0
-    return f
+    return {"smh_hist_by_floor": _flag("FlagsSmh", "smh_hist_by_floor"),
+            "dens_tie_on_hash": _flag("FlagsDens", "dens_tie_on_hash"),
+            "dens_report_empty": _flag("FlagsDens", "dens_report_empty")}
 
 
 def correspond_sk(run, n, kind):
@@ -107,3 +117,7 @@ def replay_generic(pid, path):
         return 0
     print("obligation replay: re-run ./check %s; broken: %s" % (pid, [b["name"] for b in rep.get("broken", [])]))
     return 0
+
+
+def flags_ord():
+    return _flag("FlagsOrd", "ord_break_on_reject")
